@@ -13,6 +13,7 @@ EXPL = ("Decides: (1) SA-DATA, exhaustively over each table as evaluated by rust
 
 def run(ctx):
     cfgs = ["rel"] if ctx.tier == "quick" else ["rel", "dbg", "unsafe", "nodef", "unchecked"]
+    ctx.progs(cfgs)  # build all configurations in parallel
     for c in cfgs:
         prog = ctx.prog(c)
         ctx.guard("C20", "tables", lambda: data.block_size_tables(ctx, prog))
